@@ -117,12 +117,12 @@ def replay_reduce(ctx, payload, runner=None):
 
 # ------------------------------------------------------------------ models
 def run_model(ctx, module, cfg, *, name, constants="", workers=16, timeout=600, coverage=False,
-              must_cover=(), extra=()):
+              must_cover=(), extra=(), heap="4g"):
     """run a TLC model; a violated invariant is returned to the caller (it is
     not by itself an alarm about the code)."""
     wd = tlc.new_workdir(name)
     try:
-        res = tlc.run_tlc(module, cfg, wd, workers=workers, timeout=timeout, coverage=coverage, extra=extra)
+        res = tlc.run_tlc(module, cfg, wd, workers=workers, timeout=timeout, coverage=coverage, extra=extra, heap=heap)
         tlc.require_ok(res, f"model {name}")
         ctx.add_model(name, res, constants)
         for act in must_cover:
